@@ -26,6 +26,7 @@ Bound(a) == CASE a \in {"unmarshal_iface", "unmarshal_std_iface", "unmarshal_ski
 Expect(a, sh, d, c) ==
   IF a = "marshal_cycle" THEN "error"
   ELSE IF a = "marshal_deep" THEN "any"
+  ELSE IF ~c /\ a = "get_path" THEN "any"     \* a lazy lookup stops at the addressed value and never sees that the document is cut short
   ELSE IF ~c THEN "error"
   ELSE IF d <= 4000 THEN "value"          \* well inside every bound
   ELSE "any"                              \* at and beyond the bound: value or error, never a crash (exact bounds differ per entry point)
